@@ -4,77 +4,121 @@
    Reading guide.  [run p gen scheds roots n] is the world after n iterations of tick() of the program p
    (handlers per event name), with generate_events fired iff gen, the task set iterated in the order
    given by scheds (any schedule: [order_by] only permutes), and the root events fired as listed.  Every
-   theorem is for ALL p, gen, scheds, roots, n.  [bad w = false] says the machinery itself has not raised
-   (removeHandler of an absent handler, a generator resumed against the protocol); [bad] is part of the
-   observable compared with the implementation on every generated case.
+   theorem is for ALL p, gen, scheds, roots, n, without side condition.
+   [bad w] says the machinery itself has raised (removeHandler of an absent handler, a generator resumed
+   against the protocol, a table index out of range); C06_no_crash proves it unreachable.
    A wait state (one per executed call()/wait()) carries ghost fields, written only by the model's
    transition functions: s_ph (Armed: waiting for the event; Seen: _on_event ran; Flagged: _on_done ran, the
    wait generator is a task; Dead: resumed or timed out), s_resumes (number of times the suspended handler
    was resumed through this wait, by send() of the result or by throw() of TimeoutError), s_ticks (number of
    generate_events dispatches its tick handler counted), s_tmo0 (the timeout given), s_timedout.
-
-   NOT proved here (checked on every generated case by the oracle in harness/c06.py only): liveness (the
-   caller IS resumed when the callee finishes), and that the result is delivered only after the last
-   handler step of the callee.  So "no residue at quiescence" is proved in the form C06_no_residue (nothing is
-   left once every wait has been resumed or has timed out); that every wait does get there is the unproved part. *)
+   The log [wlog] (newest first) has one entry per handler step; [LRes tok hi k e vals err] = handler hi of
+   event instance tok is resumed in its step k with the Value (vals, err) of instance e; [htok x = Some t]
+   says that x is a step of a handler of instance t (LPlain, LStep, LRes, LTmo, LTmoUncaught, LEnd).
+   What remains unproved: termination itself (that a run of an acyclic program does go quiet within a bound) - the
+   theorems say what holds whenever it has; the generated cases of the correspondence all do. *)
 From Coq Require Import List ZArith Bool.
 From Circ Require Import Model.KTasks Proofs.KTasksP.
 Import ListNotations.
 Open Scope Z_scope.
 
+(* the coroutine machinery never raises by itself: every removeHandler finds its handler, every generator is
+   resumed the way it is suspended (next / send / throw), every table lookup succeeds *)
+Theorem C06_no_crash : forall p g scheds roots n, bad (run p g scheds roots n) = false.
+Proof. exact run_no_crash. Qed.
+Print Assumptions C06_no_crash.
+
 (* residue: the temporary handlers installed are exactly those the live wait states call for
    (<name> while Armed; <name>_done until resumed/timed out; generate_events while Armed/Seen with a timeout),
    each at most once *)
-Theorem C06_residue : forall p g scheds roots n, let w := run p g scheds roots n in bad w = false ->
+Theorem C06_residue : forall p g scheds roots n, let w := run p g scheds roots n in
   NoDup (ths w) /\
   forall h, In h (ths w) <-> exists st, nth_error (wsts w) (sid_of h) = Some st /\ wants h st.
-Proof. exact residue_spec. Qed.
+Proof. exact residue_spec_nc. Qed.
 Print Assumptions C06_residue.
 
 (* ... so once every wait has been resumed or has timed out, no temporary handler and no wait generator task is left *)
-Theorem C06_no_residue : forall p g scheds roots n, let w := run p g scheds roots n in bad w = false ->
+Theorem C06_no_residue : forall p g scheds roots n, let w := run p g scheds roots n in
   (forall sid st, nth_error (wsts w) sid = Some st -> s_ph st = Dead) ->
   ths w = [] /\ forall t, In t (tasks w) -> forall sid, t_ref t <> RWait sid.
-Proof. exact no_residue_all_dead. Qed.
+Proof. exact no_residue_all_dead_nc. Qed.
 Print Assumptions C06_no_residue.
 
 (* exactly-once accounting: at every moment a wait is exactly one of: live (handlers installed, caller suspended),
    timed out with its TimeoutError pending as a task, or has resumed its caller exactly once *)
-Theorem C06_resume_accounting : forall p g scheds roots n sid st, let w := run p g scheds roots n in bad w = false ->
+Theorem C06_resume_accounting : forall p g scheds roots n sid st, let w := run p g scheds roots n in
   nth_error (wsts w) sid = Some st ->
   (s_resumes st + alive (s_ph st) + count_rt sid (tasks w) = 1)%nat.
-Proof. exact resume_accounting. Qed.
+Proof. exact resume_accounting_nc. Qed.
 Print Assumptions C06_resume_accounting.
 
 (* the caller is resumed at most once per call/wait, result and TimeoutError together; after it nothing is pending *)
-Theorem C06_resume_at_most_once : forall p g scheds roots n sid st, let w := run p g scheds roots n in bad w = false ->
+Theorem C06_resume_at_most_once : forall p g scheds roots n sid st, let w := run p g scheds roots n in
   nth_error (wsts w) sid = Some st ->
   (s_resumes st <= 1)%nat /\ (s_resumes st = 1%nat -> s_ph st = Dead /\ count_rt sid (tasks w) = O).
-Proof. exact resume_at_most_once. Qed.
+Proof. exact resume_at_most_once_nc. Qed.
 Print Assumptions C06_resume_at_most_once.
 
 (* a TimeoutError (fired, or still pending as a task) exists only after the wait has counted tmo0+1 generate_events
    dispatches, i.e. not before tmo0 further loop iterations; until then the countdown is exact *)
-Theorem C06_timeout_not_early : forall p g scheds roots n sid st, let w := run p g scheds roots n in bad w = false ->
+Theorem C06_timeout_not_early : forall p g scheds roots n sid st, let w := run p g scheds roots n in
   nth_error (wsts w) sid = Some st ->
   (s_timedout st = true \/ (0 < count_rt sid (tasks w))%nat) ->
   Z.of_nat (s_ticks st) = s_tmo0 st + 1 /\ s_ph st = Dead.
-Proof. exact timeout_not_early. Qed.
+Proof. exact timeout_not_early_nc. Qed.
 Print Assumptions C06_timeout_not_early.
 
-Theorem C06_countdown : forall p g scheds roots n sid st, let w := run p g scheds roots n in bad w = false ->
+Theorem C06_countdown : forall p g scheds roots n sid st, let w := run p g scheds roots n in
   nth_error (wsts w) sid = Some st -> s_timedout st = false -> 0 <= s_tmo0 st ->
   0 <= s_timeout st /\ s_timeout st + Z.of_nat (s_ticks st) = s_tmo0 st.
-Proof. exact live_countdown. Qed.
+Proof. exact live_countdown_nc. Qed.
 Print Assumptions C06_countdown.
 
 (* a wait generator is in the task set only between _on_done and its resumption; then only <name>_done is installed *)
-Theorem C06_wait_task : forall p g scheds roots n t sid, let w := run p g scheds roots n in bad w = false ->
+Theorem C06_wait_task : forall p g scheds roots n t sid, let w := run p g scheds roots n in
   In t (tasks w) -> t_ref t = RWait sid ->
   exists st, nth_error (wsts w) sid = Some st /\ s_ph st = Flagged /\ In (THDone sid) (ths w) /\
              ~ In (THEv sid) (ths w) /\ ~ In (THTick sid) (ths w).
-Proof. exact wait_task_flagged. Qed.
+Proof. exact wait_task_flagged_nc. Qed.
 Print Assumptions C06_wait_task.
+
+(* resumed only after the callee has finished: in the log (oldest first), after the entry that resumes a caller with
+   the result of instance e there is no step of any handler of e (plain handler, generator step, resumption of a
+   handler of e from its own nested call, TimeoutError in it, its end); moreover, at the end of the run, no handler
+   generator of e is a task and no handler of e is suspended in a call/wait that has not resumed it.  (Nested calls:
+   a handler of e continues after its own nested call only through an LRes / LTmo entry of e, which by this theorem
+   applied to that entry comes after the last step of the nested callee.) *)
+Theorem C06_resume_after_finish : forall p g scheds roots n l1 l2 tok hi k e vals err, let w := run p g scheds roots n in
+  rev (wlog w) = l1 ++ LRes tok hi k e vals err :: l2 ->
+  (forall x, In x l2 -> htok x <> Some e) /\
+  (forall t, In t (tasks w) -> t_ev t = e -> is_gen (t_ref t) = false) /\
+  (forall sid st, nth_error (wsts w) sid = Some st -> s_tevent st = e -> s_resumes st <> O).
+Proof. exact resume_after_finish. Qed.
+Print Assumptions C06_resume_after_finish.
+
+(* the value and error flag delivered at a resumption are those of instance e itself — read from e when the caller is
+   resumed (Model: gen_resume (RSend e)), and, because e has passed its waitingHandlers gate by then (dispatched, no
+   count left) and nothing writes to it afterwards, still e's value and error flag at the end of the run *)
+Theorem C06_resume_value : forall p g scheds roots n tok hi k e vals err, let w := run p g scheds roots n in
+  In (LRes tok hi k e vals err) (wlog w) ->
+  exists ev, nth_error (evs w) e = Some ev /\ e_vals ev = vals /\ e_errors ev = err /\
+             (1 <= e_gate ev)%nat /\ e_dispatched ev = true /\ e_waiting ev = 0.
+Proof. exact resume_value. Qed.
+Print Assumptions C06_resume_value.
+
+(* liveness, in the form a terminating run offers: if the run has gone quiet (no queued event, no task left) and no wait
+   by name is still armed (a wait("name") whose event was never dispatched to it and whose timeout, if any, has not
+   fired - that one legitimately keeps waiting), then EVERY call()/wait() executed in the run has resumed its caller,
+   exactly once (result or TimeoutError), and by C06_no_residue nothing of them is left.  Proof: the youngest wait
+   that is still live would be (a) flagged - but then its wait generator is a task; (b) armed on an event object - but
+   then that event is still queued; or (c) have seen its event e, which has not passed its gate - but then e still holds
+   a waitingHandlers count that, with no task left, belongs to a handler of e suspended in a younger live wait. *)
+Theorem C06_quiescent_all_resumed : forall p g scheds roots n, let w := run p g scheds roots n in
+  queue w = [] -> tasks w = [] ->
+  (forall sid st, nth_error (wsts w) sid = Some st -> s_ph st = Armed -> s_obj st <> None) ->
+  forall sid st, nth_error (wsts w) sid = Some st -> s_ph st = Dead /\ s_resumes st = 1%nat.
+Proof. exact quiescent_all_resumed. Qed.
+Print Assumptions C06_quiescent_all_resumed.
 
 (* non-vacuity: a call that returns (resumed once with the callee's two values) and a call that times out
    (timeout 1: two generate_events dispatches counted, TimeoutError delivered once) *)
@@ -108,3 +152,25 @@ Example C06_ex_raise_resumed :
   map (fun s => (s_ph s, s_resumes s)) (wsts w) = [(Dead, 1%nat); (Dead, 1%nat)] /\
   In (LRes 1 0 0 2 [-1] true) (wlog w).
 Proof. vm_compute. repeat split. tauto. Qed.
+
+(* the hypothesis of C06_resume_after_finish is met: the callee's steps precede the resumption, the caller goes on after it *)
+Example C06_ex_after_finish :
+  let w := run prog_ok false [] [(O, O)] 12 in
+  exists l1 l2, rev (wlog w) = l1 ++ LRes 1 0 0 2 [205; 209] false :: l2 /\
+                In (LPlain 2 0) l1 /\ In (LEnd 2 1) l1 /\ In (LStep 1 0 1) l2.
+Proof.
+  exists (firstn 14 (rev (wlog (run prog_ok false [] [(O, O)] 12)))), (skipn 15 (rev (wlog (run prog_ok false [] [(O, O)] 12)))).
+  vm_compute. repeat split; tauto.
+Qed.
+
+(* the hypotheses of C06_quiescent_all_resumed are met by runs that do something: nested calls, a timeout *)
+Example C06_ex_quiet :
+  let w := run prog_raise_resumed false [] [(O, O)] 14 in
+  queue w = [] /\ tasks w = [] /\ length (wsts w) = 2%nat /\
+  forallb (fun s => match s_ph s, s_obj s with Armed, None => false | _, _ => true end) (wsts w) = true.
+Proof. vm_compute. repeat split. Qed.
+Example C06_ex_quiet_tmo :
+  let w := run prog_tmo true [] [(O, O)] 14 in
+  queue w = [] /\ tasks w = [] /\ length (wsts w) = 1%nat /\
+  forallb (fun s => match s_ph s, s_obj s with Armed, None => false | _, _ => true end) (wsts w) = true.
+Proof. vm_compute. repeat split. Qed.
